@@ -116,7 +116,8 @@ pub struct Decl {
 
 fn render_attrs(out: &mut String, attrs: &mut [Vec<Occ>]) {
     for group in attrs.iter_mut() {
-        out.push_str("#[darling(");
+        // `r#darling` is `darling` spelled as a raw identifier: the same attribute
+        out.push_str(if (out.len() + group.len()) % 6 == 0 { "#[r#darling(" } else { "#[darling(" });
         for (i, o) in group.iter_mut().enumerate() {
             if i > 0 {
                 out.push_str(", ");
